@@ -82,6 +82,8 @@ def build(spec):
         if "nd" in spec:
             a = np.array(spec["nd"], dtype=spec.get("dtype", "float64"))
             return np.asfortranarray(a) if spec.get("order") == "F" else a
+        if "np" in spec:  # a NumPy scalar: {"np": "float32", "v": 1.5}
+            return np.dtype(spec["np"]).type(spec["v"])
         if "tuple" in spec:
             return tuple(build(v) for v in spec["tuple"])
         if "fn" in spec:
@@ -102,6 +104,8 @@ def short(spec):
             return f"{spec['cls']}({inner})"
         if "nd" in spec:
             return f"array{np.shape(spec['nd'])}"
+        if "np" in spec:
+            return f"np.{spec['np']}({spec['v']})"
         if "tuple" in spec:
             return "(" + ", ".join(short(v) for v in spec["tuple"]) + ")"
         if "fn" in spec:
